@@ -77,6 +77,13 @@ class Report(object):
     def broken(self, msg):
         raise AnalysisBroken(msg)
 
+    def defer_broken(self, msg):
+        """a rule cannot model what it found: the remaining rules still run; the run ends as analysis-broken unless they report a violation
+        (which is then the verdict, with this message printed next to it)"""
+        if not hasattr(self, 'deferred'):
+            self.deferred = []
+        self.deferred.append(msg)
+
 
 def load_known():
     if not os.path.exists(KNOWN_FILE):
@@ -108,6 +115,11 @@ def finish(rep, level, explanation, assumptions, trusted_base, seed=0, checker_c
         else:
             violations.append(f)
     stale = [k for k in known_keys if k not in {f['key'] for f in rep.findings} and known_keys[k].get('tier', rep.tier) == rep.tier]
+    for msg in getattr(rep, 'deferred', []):
+        if floor_miss is None:
+            floor_miss = msg
+        else:
+            rep.notes.append(msg)
     if floor_miss:
         if not violations:
             raise AnalysisBroken(floor_miss)
